@@ -4,3 +4,5 @@ import Tibc.Props.C06
 #print axioms Tibc.C06.parse_full
 #print axioms Tibc.C06.native_class_consistent
 #print axioms Tibc.C06.nft_refund_exact
+#print axioms Tibc.C06.recv_away_mints_voucher
+#print axioms Tibc.C06.nft_round_trip_restores
